@@ -957,6 +957,9 @@ def aimed_shapes() -> list[tuple[str, list[list[tuple]]]]:
         # op 0's "previous op" is read as rtn[-1]: an unreachable trailing context op makes the flow run through a leading Return
         ("last-op-is-unreachable-ctx", [[R, pl, cx]]),
         ("last-op-is-unreachable-ctx-2", [[H, pl, R, cx]]),
+        # the join of an `if` in the default body lies inside a sibling case body (found by a random list, seed 0)
+        ("if-join-in-sibling-case-body", [[sw, ca(9), ca(9), ca(7), jp(6), cx, br(8), fl, pl, H]]),
+        ("if-join-in-sibling-case-body-2", [[sw, ca(8), ca(8), ca(6), jp(5), br(7), fl, pl, H]]),
         ("switch-scenario-casescenario", [[("swscn",), ("casescn", (0, 3)), R, pl, R]]),
         ("switch-menu", [[("swmenu",), ("casemenu", (0, 4)), ("casemenu2", (0, 6)), R, pl, jp(7), pl, R]]),
         ("switch-menu-default", [[("swmenu",), ("casemenu", (0, 3)), pl, pl, R]]),
